@@ -5,28 +5,83 @@ import TzVerif.Model.Rule
 import TzVerif.Spec.Rule
 import TzVerif.Proofs.RuleEval
 import TzVerif.Proofs.ConsistJulian
+import TzVerif.Proofs.ConsistMwdJulian
+import TzVerif.Proofs.ConsistMwdNear
 
 namespace TzVerif.Proofs
 open TzVerif.Model TzVerif.Gen
+
+open CM in
+/-- month-week-day start, Julian end -/
+theorem check_mj_aux (std dst : LocalTimeType) (m w d : Int) (st : Int) (J : RuleDay) (et : Int) (hJ : IsJul J)
+    (hm1 : 1 ≤ m) (hm2 : m ≤ 12) (hw1 : 1 ≤ w) (hw2 : w ≤ 5) (hd1 : 0 ≤ d) (hd2 : d ≤ 6) :
+    checkMonthWeekDayAndJulianDay (mwdCheckInfos m w (st - std.utOffset)) (jinfos J (et - dst.utOffset)) =
+      Spec.consistentB { std := std, dst := dst, dstStart := .mwd m w d, dstStartTime := st, dstEnd := J, dstEndTime := et } := by
+  rw [consistentB_eq_cl, core_mj m w d hm1 hm2 hw1 hw2 hd1 hd2 J hJ]
+  rfl
+
+open CM in
+/-- Julian start, month-week-day end -/
+theorem check_jm_aux (std dst : LocalTimeType) (J : RuleDay) (st : Int) (m w d : Int) (et : Int) (hJ : IsJul J)
+    (hm1 : 1 ≤ m) (hm2 : m ≤ 12) (hw1 : 1 ≤ w) (hw2 : w ≤ 5) (hd1 : 0 ≤ d) (hd2 : d ≤ 6) :
+    checkMonthWeekDayAndJulianDay (mwdCheckInfos m w (et - dst.utOffset)) (jinfos J (st - std.utOffset)) =
+      Spec.consistentB { std := std, dst := dst, dstStart := J, dstStartTime := st, dstEnd := .mwd m w d, dstEndTime := et } := by
+  rw [consistentB_eq_cl, core_mj m w d hm1 hm2 hw1 hw2 hd1 hd2 J hJ]
+  simp only [tD]
+  have e1 : dd1 J (.mwd m w d) = fun y => -(dd1 (.mwd m w d) J y) := by
+    funext y; unfold dd1; omega
+  have e2 : dd2 J (.mwd m w d) = dd3 (.mwd m w d) J := rfl
+  have e3 : dd3 J (.mwd m w d) = dd2 (.mwd m w d) J := rfl
+  rw [e1, e2, e3, cl_neg]
+  have x1 : -(et - dst.utOffset - (st - std.utOffset)) = st - std.utOffset - (et - dst.utOffset) := by omega
+  have x2 : - -(st - std.utOffset - (et - dst.utOffset)) = st - std.utOffset - (et - dst.utOffset) := by omega
+  have x3 : et - dst.utOffset - (st - std.utOffset) = -(st - std.utOffset - (et - dst.utOffset)) := by omega
+  rw [x1, x2, x3]
+  generalize cl (List.map (dd1 (RuleDay.mwd m w d) J) Spec.kindYears) _ = b1
+  generalize cl (List.map (dd2 (RuleDay.mwd m w d) J) Spec.kindYears) _ = b2
+  generalize cl (List.map (dd3 (RuleDay.mwd m w d) J) Spec.kindYears) _ = b3
+  cases b1 <;> cases b2 <;> cases b3 <;> rfl
 
 theorem check_eq_B_mwd_julian (std dst : LocalTimeType) (ds : RuleDay) (st : Int) (de : RuleDay) (et : Int)
     (hs : RuleShape { std := std, dst := dst, dstStart := ds, dstStartTime := st, dstEnd := de, dstEndTime := et })
     (h2 : IsJulian de) :
     checkDstTransitionRulesConsistency std dst ds st de et =
       Spec.consistentB { std := std, dst := dst, dstStart := ds, dstStartTime := st, dstEnd := de, dstEndTime := et } := by
-  sorry
+  match ds, de, hs, h2 with
+  | .julian1 a, de, hs, h2 => exact check_eq_B_julian std dst _ st de et hs trivial h2
+  | .julian0 a, de, hs, h2 => exact check_eq_B_julian std dst _ st de et hs trivial h2
+  | .mwd m w d, .julian1 n, hs, _ =>
+    obtain ⟨⟨hm1, hm2, hw1, hw2, hd1, hd2⟩, _⟩ := hs
+    exact check_mj_aux std dst m w d st (.julian1 n) et trivial hm1 hm2 hw1 hw2 hd1 hd2
+  | .mwd m w d, .julian0 n, hs, _ =>
+    obtain ⟨⟨hm1, hm2, hw1, hw2, hd1, hd2⟩, _⟩ := hs
+    exact check_mj_aux std dst m w d st (.julian0 n) et trivial hm1 hm2 hw1 hw2 hd1 hd2
+  | .mwd _ _ _, .mwd _ _ _, _, h2 => exact absurd h2 (by simp [IsJulian])
 
 theorem check_eq_B_julian_mwd (std dst : LocalTimeType) (ds : RuleDay) (st : Int) (de : RuleDay) (et : Int)
     (hs : RuleShape { std := std, dst := dst, dstStart := ds, dstStartTime := st, dstEnd := de, dstEndTime := et })
     (h1 : IsJulian ds) :
     checkDstTransitionRulesConsistency std dst ds st de et =
       Spec.consistentB { std := std, dst := dst, dstStart := ds, dstStartTime := st, dstEnd := de, dstEndTime := et } := by
-  sorry
+  match ds, de, hs, h1 with
+  | ds, .julian1 a, hs, h1 => exact check_eq_B_julian std dst ds st _ et hs h1 trivial
+  | ds, .julian0 a, hs, h1 => exact check_eq_B_julian std dst ds st _ et hs h1 trivial
+  | .julian1 n, .mwd m w d, hs, _ =>
+    obtain ⟨_, ⟨hm1, hm2, hw1, hw2, hd1, hd2⟩, _⟩ := hs
+    exact check_jm_aux std dst (.julian1 n) st m w d et trivial hm1 hm2 hw1 hw2 hd1 hd2
+  | .julian0 n, .mwd m w d, hs, _ =>
+    obtain ⟨_, ⟨hm1, hm2, hw1, hw2, hd1, hd2⟩, _⟩ := hs
+    exact check_jm_aux std dst (.julian0 n) st m w d et trivial hm1 hm2 hw1 hw2 hd1 hd2
+  | .mwd _ _ _, .mwd _ _ _, _, h1 => exact absurd h1 (by simp [IsJulian])
 
 theorem check_eq_B_mwd_mwd (std dst : LocalTimeType) (m1 w1 d1 : Int) (st : Int) (m2 w2 d2 : Int) (et : Int)
     (hs : RuleShape { std := std, dst := dst, dstStart := .mwd m1 w1 d1, dstStartTime := st, dstEnd := .mwd m2 w2 d2, dstEndTime := et }) :
     checkDstTransitionRulesConsistency std dst (.mwd m1 w1 d1) st (.mwd m2 w2 d2) et =
       Spec.consistentB { std := std, dst := dst, dstStart := .mwd m1 w1 d1, dstStartTime := st, dstEnd := .mwd m2 w2 d2, dstEndTime := et } := by
-  sorry
+  obtain ⟨⟨hm1, hm1', hw1, hw1', hd1, hd1'⟩, ⟨hm2, hm2', hw2, hw2', hd2, hd2'⟩, o1, o2, o3, o4, t1, t2, t3, t4⟩ := hs
+  simp only [] at o1 o2 o3 o4 t1 t2 t3 t4
+  rw [CM.consistentB_eq_cl]
+  exact CM.mm_core CM.near_all m1 w1 d1 m2 w2 d2 hm1 hm1' hw1 hw1' hd1 hd1' hm2 hm2' hw2 hw2' hd2 hd2'
+    (st - std.utOffset) (et - dst.utOffset) (by omega) (by omega)
 
 end TzVerif.Proofs
